@@ -296,6 +296,9 @@ pub trait TypedIterable {
             packet[offset..offset + new_name_len].copy_from_slice(name);
         }
         self.recompute_rr();
+        if self.current_section()? == Section::Question {
+            self.parsed_packet_mut().cached = None;
+        }
 
         Ok(())
     }
@@ -328,6 +331,9 @@ pub trait TypedIterable {
         self.set_offset_next(offset);
         self.invalidate();
         let parsed_packet = self.parsed_packet_mut();
+        if section == Section::Question {
+            parsed_packet.cached = None;
+        }
         let rrcount = parsed_packet.rrcount_dec(section)?;
         if rrcount <= 0 {
             let offset = match section {
